@@ -2,14 +2,15 @@
 # ingest.sh <property id> <A|B>   : confirm a seeded change delivered in /tmp/seed_<ID>_out/<A|B>,
 # keep it under /verif/seeded/<ID>-<A|B>/ and run the owning check against it.
 set -u
-ID="$1"; V="$2"; SRC="/tmp/seed_${ID}_out/$V"; DST="/verif/seeded/${ID}-$V"
-[ -f "$SRC/patch.diff" ] || { echo "$ID-$V: nothing delivered"; exit 1; }
+# optional: ingest.sh <ID> <A|B> <source prefix, e.g. seed2> <name suffix, e.g. C>
+ID="$1"; V="$2"; PFX="${3:-seed}"; NAME="${4:-$V}"; SRC="/tmp/${PFX}_${ID}_out/$V"; DST="/verif/seeded/${ID}-$NAME"
+[ -f "$SRC/patch.diff" ] || { echo "$ID-$NAME: nothing delivered"; exit 1; }
 C=$(/verif/selftest/confirm_seeded.sh "$SRC" 2>&1 | tail -1)
-echo "$ID-$V: $C"
+echo "$ID-$NAME: $C"
 case "$C" in CONFIRMED*) ;; *) exit 1;; esac
 mkdir -p "$DST"; cp "$SRC/patch.diff" "$SRC/demo.rs" "$DST/"
 E=$(/verif/selftest/eval_seeded.sh "$SRC" "$ID" 2>&1 | tail -1)
-echo "$ID-$V: $E"
+echo "$ID-$NAME: $E"
 python3 - "$SRC/meta.json" "$DST/meta.json" "$ID" "$C" "$E" <<'PY'
 import json,sys
 src,dst,pid,conf,ev=sys.argv[1:6]
